@@ -40,6 +40,29 @@ def run(ctx, res):
     else:
         if n_retry:
             res.ok(rid1, "layout-state-bracket", f.loc(), "%d retry rows" % n_retry)
+    # ... and the retry can come round AGAIN (layout, no token, more layout: a layout rule that does not repeat by itself,
+    # `Layout: WS | Comment;`). What is stored must then be all the layout skipped since the last token, not the last piece:
+    # set_layout_ahead has to be given something that also holds what an earlier round stored (the previous layout_ahead, or
+    # a slice of the input from a start remembered before the first round). Otherwise the pieces before the last are in no
+    # leaf and the input cannot be put together again (D35).
+    for a, out, p in rows:
+        if out != "retry":
+            continue
+        sl = calls(p, "Context::set_layout_ahead")
+        v = sl[-1][2][1] if sl else None
+        inner = dict(v[2]).get("0") if v and v[0] == "agg" and v[1].endswith("Option::Some") else None
+        if inner is None:
+            continue
+        accumulates = has_call(inner, "Context::layout_ahead") or has_call(inner, "Input::slice") or \
+            (isinstance(inner, tuple) and inner[0] == "index")
+        if accumulates:
+            res.ok(rid1, "retry/layout-accumulates", f.loc(), "the stored layout includes what earlier rounds skipped")
+        else:
+            res.violation(rid1, "retry/layout-accumulates", "LR next_token can go round the layout retry more than once, and each round "
+                          "stores only the piece it skipped itself (set_layout_ahead(Some(<result of this layout parse>))): with "
+                          "`Layout: Ws | Comment;` the input `a /*c*/ b` is accepted and the leaf `b` carries ` `, the pieces ` ` "
+                          "and `/*c*/` before it are lost - the tree does not reproduce the input", f.loc())
+        break
     # R2 layout survives re-lexing after a reduce; R7 it is reset after a shift
     rid2 = res.rule("C14-R2", "layout read before the re-lex after a reduce is restored after it; after a shift the layout is reset "
                     "before the next token is looked for", floor=2)
